@@ -40,4 +40,5 @@ macro_rules
           true_and, and_false, false_and, or_self, or_true, true_or, or_false, false_or, iff_self, iff_true, true_iff,
           iff_false, false_iff, not_and, not_or, not_not, imp_self, implies_true, Geom.Rect.mk.injEq,
           Geom.Point.mk.injEq, gt_iff_lt, ge_iff_le, Geom.Rect.zero, decide_eq_decide] <;> done)
-      | (simp_all <;> done))
+      | (simp_all <;> done)
+      | ((try simp_all) <;> (repeat' split) <;> (try simp_all) <;> done))
